@@ -1,16 +1,24 @@
-//! json family: std.json.ser.to_string followed by std.json.de.deserialize on float-free values.
+//! json family, value level: std.json.ser.to_string followed by std.json.de.deserialize on
+//! std.json.Value, every value class (null, bool, int, FLOAT, string, array, object), and reading
+//! of re-spelled texts (white space, \u escapes, surrogate pairs, exponent spellings).
 //!
-//! case line:  json <value>
-//!   value = n | t | f | i<int> | s<hex utf8> | a[ value ("," value)* ] | o[ <hex key> ":" value ("," ...)* ]
-//! Object keys are distinct and sorted (bytewise) in the case line; the Gluon literal inserts them
-//! into std.map in a random order given by the permutation suffix `@<perm>`? no: insertion order is
-//! the reverse of the sorted order, so the BST the value starts from is not the one `de` builds.
+//! case lines
+//!   json <value>                        ser then de of the value
+//!   jsontext <value> <hex text>         de of a re-spelling of ser(value); must read back as <value>
+//!   value = n | t | f | i<int> | F<16 hex digits: f64 bits>:<hex of the decimal token> | s<hex utf8>
+//!         | a[ value ("," value)* ] | o[ <hex key> ":" value ("," ...)* ]
+//! Object keys are distinct and sorted (bytewise); the Gluon literal inserts them in reverse order, so
+//! the BST the value starts from is not the one `de` builds.  Floats are finite (JSON has no NaN/inf)
+//! and reach the Gluon program through an `Array Float` argument (no float literal is lexed).
+//! The decimal token of a float in the case line is serde_json's own rendering: the Coq model carries
+//! float tokens opaquely (Lib/Json.v JFloat); what IS checked independently for floats is the
+//! round-trip property on the implementation, by BIT equality of the f64 read back.
 //!
-//! result line:  <hex of the serialised text> <value read back, same syntax> | error ...
+//! result line:  <hex of the serialised text> <value read back, floats as F<bits>> | error ...
 use super::derive::gluon_string_literal;
 use super::{Val, Vm};
 use gluon::ThreadExt;
-use gluon::vm::api::ValueRef;
+use gluon::vm::api::{Getable, OwnedFunction, ValueRef};
 use gvh::out::Hist;
 use gvh::rng::Rng;
 use std::panic::{AssertUnwindSafe, catch_unwind};
@@ -20,61 +28,87 @@ pub enum J {
     Null,
     Bool(bool),
     Int(i64),
+    /// bit pattern
+    Float(u64),
     Str(String),
     Arr(Vec<J>),
     Obj(Vec<(String, J)>),
 }
 
-fn hex(b: &[u8]) -> String {
+pub fn hex(b: &[u8]) -> String {
     b.iter().map(|c| format!("{:02x}", c)).collect()
 }
-fn unhex(s: &str) -> Vec<u8> {
+pub fn unhex(s: &str) -> Vec<u8> {
     (0..s.len() / 2).map(|i| u8::from_str_radix(&s[2 * i..2 * i + 2], 16).unwrap()).collect()
 }
 
-pub fn p_j(v: &J) -> String {
+/// serde_json's decimal token of a finite float (used opaquely by the model)
+pub fn float_token(bits: u64) -> String {
+    serde_json::to_string(&f64::from_bits(bits)).unwrap()
+}
+
+/// rendering with (`tok` = true: case lines) or without (results) the float tokens
+pub fn p_j(v: &J, tok: bool) -> String {
     match v {
         J::Null => "n".into(),
         J::Bool(true) => "t".into(),
         J::Bool(false) => "f".into(),
         J::Int(i) => format!("i{}", i),
+        J::Float(b) => {
+            if tok {
+                format!("F{:016x}:{}", b, hex(float_token(*b).as_bytes()))
+            } else {
+                format!("F{:016x}", b)
+            }
+        }
         J::Str(s) => format!("s{}", hex(s.as_bytes())),
-        J::Arr(xs) => format!("a[{}]", xs.iter().map(p_j).collect::<Vec<_>>().join(",")),
-        J::Obj(kv) => format!("o[{}]", kv.iter().map(|(k, v)| format!("{}:{}", hex(k.as_bytes()), p_j(v))).collect::<Vec<_>>().join(",")),
+        J::Arr(xs) => format!("a[{}]", xs.iter().map(|x| p_j(x, tok)).collect::<Vec<_>>().join(",")),
+        J::Obj(kv) => format!("o[{}]", kv.iter().map(|(k, v)| format!("{}:{}", hex(k.as_bytes()), p_j(v, tok))).collect::<Vec<_>>().join(",")),
     }
 }
 
-struct P<'a> {
-    s: &'a [u8],
-    i: usize,
+pub struct P<'a> {
+    pub s: &'a [u8],
+    pub i: usize,
 }
 impl<'a> P<'a> {
-    fn peek(&self) -> u8 {
+    pub fn peek(&self) -> u8 {
         *self.s.get(self.i).unwrap_or(&0)
     }
-    fn hexs(&mut self) -> String {
+    pub fn hexs(&mut self) -> String {
         let st = self.i;
         while self.peek().is_ascii_hexdigit() {
             self.i += 1;
         }
         String::from_utf8_lossy(&self.s[st..self.i]).into_owned()
     }
-    fn val(&mut self) -> Option<J> {
+    pub fn num(&mut self) -> Option<i64> {
+        let st = self.i;
+        if self.peek() == b'-' {
+            self.i += 1;
+        }
+        while self.peek().is_ascii_digit() {
+            self.i += 1;
+        }
+        std::str::from_utf8(&self.s[st..self.i]).ok()?.parse().ok()
+    }
+    pub fn val(&mut self) -> Option<J> {
         let c = self.peek();
         self.i += 1;
         match c {
             b'n' => Some(J::Null),
             b't' => Some(J::Bool(true)),
             b'f' => Some(J::Bool(false)),
-            b'i' => {
-                let st = self.i;
-                if self.peek() == b'-' {
+            b'i' => Some(J::Int(self.num()?)),
+            b'F' => {
+                let h = std::str::from_utf8(&self.s[self.i..self.i + 16]).ok()?;
+                let bits = u64::from_str_radix(h, 16).ok()?;
+                self.i += 16;
+                if self.peek() == b':' {
                     self.i += 1;
+                    self.hexs();
                 }
-                while self.peek().is_ascii_digit() {
-                    self.i += 1;
-                }
-                Some(J::Int(std::str::from_utf8(&self.s[st..self.i]).ok()?.parse().ok()?))
+                Some(J::Float(bits))
             }
             b's' => Some(J::Str(String::from_utf8(unhex(&self.hexs())).ok()?)),
             b'a' => {
@@ -111,56 +145,92 @@ impl<'a> P<'a> {
 #[derive(Clone, Debug)]
 pub struct JCase {
     pub v: J,
+    /// Some(text): read this re-spelling of ser(v) instead of serialising
+    pub text: Option<String>,
+}
+
+fn has_float(v: &J) -> bool {
+    match v {
+        J::Float(_) => true,
+        J::Arr(x) => x.iter().any(has_float),
+        J::Obj(x) => x.iter().any(|(_, v)| has_float(v)),
+        _ => false,
+    }
 }
 
 impl JCase {
     pub fn line(&self) -> String {
-        format!("json {}", p_j(&self.v))
+        match &self.text {
+            None => format!("json {}", p_j(&self.v, true)),
+            Some(t) => format!("jsontext {} {}", p_j(&self.v, true), hex(t.as_bytes())),
+        }
     }
     pub fn parse(a: &[&str]) -> Option<JCase> {
-        Some(JCase { v: P { s: a[0].as_bytes(), i: 0 }.val()? })
+        Some(JCase { v: P { s: a[0].as_bytes(), i: 0 }.val()?, text: None })
+    }
+    pub fn parse_text(a: &[&str]) -> Option<JCase> {
+        Some(JCase { v: P { s: a[0].as_bytes(), i: 0 }.val()?, text: Some(String::from_utf8(unhex(a[1])).ok()?) })
     }
     pub fn nontrivial(&self) -> bool {
-        matches!(&self.v, J::Arr(x) if !x.is_empty()) || matches!(&self.v, J::Obj(x) if !x.is_empty())
+        matches!(&self.v, J::Arr(x) if !x.is_empty()) || matches!(&self.v, J::Obj(x) if !x.is_empty()) || has_float(&self.v) || self.text.is_some()
     }
 }
 
-fn src_j(v: &J) -> String {
+pub fn src_int(i: i64) -> String {
+    if i == i64::MIN {
+        "(0 - 9223372036854775807 - 1)".into()
+    } else if i < 0 {
+        format!("(0 - {})", -i)
+    } else {
+        i.to_string()
+    }
+}
+
+fn src_j(v: &J, floats: &mut Vec<f64>) -> String {
     match v {
         J::Null => "Null".into(),
         J::Bool(b) => format!("(Bool {})", if *b { "True" } else { "False" }),
-        J::Int(i) => {
-            if *i == i64::MIN {
-                "(Int (0 - 9223372036854775807 - 1))".into()
-            } else if *i < 0 {
-                format!("(Int (0 - {}))", -i)
-            } else {
-                format!("(Int {})", i)
-            }
+        J::Int(i) => format!("(Int {})", src_int(*i)),
+        J::Float(b) => {
+            floats.push(f64::from_bits(*b));
+            format!("(Float (array.index fs {}))", floats.len() - 1)
         }
         J::Str(s) => format!("(String {})", gluon_string_literal(s)),
-        J::Arr(xs) => format!("(Array [{}])", xs.iter().map(src_j).collect::<Vec<_>>().join(", ")),
+        J::Arr(xs) => format!("(Array [{}])", xs.iter().map(|x| src_j(x, floats)).collect::<Vec<_>>().join(", ")),
         J::Obj(kv) => {
             // insert in reverse sorted order: a left-leaning tree, unlike the one `de` builds
             let mut s = String::from("map.empty");
             for (k, v) in kv.iter().rev() {
-                s = format!("(map.insert {} {} {})", gluon_string_literal(k), src_j(v), s);
+                let vs = src_j(v, floats);
+                s = format!("(map.insert {} {} {})", gluon_string_literal(k), vs, s);
             }
             format!("(Object {})", s)
         }
     }
 }
 
-pub fn source(c: &JCase) -> String {
-    format!(
-        "let {{ Value }} = import! std.json\nlet ser = import! std.json.ser\nlet de = import! std.json.de\nlet map = import! std.map\nlet {{ Result }} = import! std.result\nlet v : Value = {}\nmatch ser.to_string ?ser.serialize_value v with\n| Err e -> Err e\n| Ok text ->\n    match de.deserialize_with de.value text with\n    | Err e -> Err e\n    | Ok back -> Ok (text, back)\n",
-        src_j(&c.v)
-    )
+const PRELUDE: &str = "let { Value } = import! std.json\nlet ser = import! std.json.ser\nlet de = import! std.json.de\nlet map = import! std.map\nlet array = import! std.array\nlet { Result } = import! std.result\n";
+
+/// (Gluon source of a function `Array Float -> Array Byte -> Result String (String, Value)`, float arguments)
+pub fn source(c: &JCase) -> (String, Vec<f64>) {
+    let mut floats = vec![];
+    let lit = src_j(&c.v, &mut floats);
+    let body = match &c.text {
+        None => format!(
+            "let v : Value = {}\n    match ser.to_string ?ser.serialize_value v with\n    | Err e -> Err e\n    | Ok text ->\n        match de.deserialize_with de.value text with\n        | Err e -> Err e\n        | Ok back -> Ok (text, back)\n",
+            lit
+        ),
+        // the text arrives as bytes (no Gluon string literal can spell every text)
+        Some(_) => "match string.from_utf8 bs with\n    | Err _ -> Err \"not utf8\"\n    | Ok text ->\n        match de.deserialize_with de.value text with\n        | Err e -> Err e\n        | Ok back -> Ok (text, back)\n".to_string(),
+    };
+    // the result type is spelled out: without it the checker reports an escaping skolem for the pair
+    let body = body.replace("\n", "\n    ");
+    (format!("{}let string = import! std.string\n\\fs bs ->\n    let out : Result String (String, Value) =\n        {}\n    out\n", PRELUDE, body.trim_end()), floats)
 }
 
 /// canonical rendering of a std.json.Value in the VM (tags: Null 0, Bool 1, Int 2, Float 3,
 /// String 4, Array 5, Object 6); the map is walked in order (Tip 0 / Bin k v l r 1)
-fn canon_value(v: ValueRef<'_>, out: &mut String) {
+pub fn canon_value(v: ValueRef<'_>, out: &mut String) {
     let d = match v {
         ValueRef::Data(d) => d,
         o => {
@@ -227,49 +297,70 @@ fn canon_value(v: ValueRef<'_>, out: &mut String) {
     }
 }
 
-pub fn run(vm: &mut Vm, c: &JCase) -> String {
-    let src = source(c);
-    let r = catch_unwind(AssertUnwindSafe(|| vm.vm.run_expr::<Val>("c19json", &src)));
-    match r {
-        Ok(Ok((v, _))) => match v.get_ref() {
-            // Result e t = | Err e | Ok t
-            ValueRef::Data(d) if d.tag() == 1 && d.len() == 1 => match d.get(0) {
-                Some(ValueRef::Data(p)) if p.len() == 2 => match p.get(0) {
-                    Some(ValueRef::String(text)) => {
-                        let mut s = format!("{} ", hex(text.as_bytes()));
-                        canon_value(p.get(1).unwrap(), &mut s);
-                        s
-                    }
-                    o => format!("?text:{:?}", o),
-                },
-                o => format!("?pair:{:?}", o),
+/// `Result String (String, X)` -> "<hex text> <canon X>" | "error .."
+pub fn render_result(v: &Val, canon: &dyn Fn(ValueRef<'_>, &mut String)) -> String {
+    match v.get_ref() {
+        // Result e t = | Err e | Ok t
+        ValueRef::Data(d) if d.tag() == 1 && d.len() == 1 => match d.get(0) {
+            Some(ValueRef::Data(p)) if p.len() == 2 => match p.get(0) {
+                Some(ValueRef::String(text)) => {
+                    let mut s = format!("{} ", hex(text.as_bytes()));
+                    canon(p.get(1).unwrap(), &mut s);
+                    s
+                }
+                o => format!("?text:{:?}", o),
             },
-            ValueRef::Data(d) if d.tag() == 0 && d.len() == 1 => match d.get(0) {
-                Some(ValueRef::String(e)) => format!("error {}", e.replace('\n', " | ")),
-                o => format!("?err:{:?}", o),
-            },
-            o => format!("?result:{:?}", o),
+            o => format!("?pair:{:?}", o),
         },
-        Ok(Err(e)) => format!("{} || source: {}", format!("error {}", e.to_string().replace('\n', " | ")), src.replace('\n', " ; ")),
+        ValueRef::Data(d) if d.tag() == 0 && d.len() == 1 => match d.get(0) {
+            Some(ValueRef::String(e)) => format!("error {}", e.replace('\n', " | ")),
+            o => format!("?err:{:?}", o),
+        },
+        o => format!("?result:{:?}", o),
+    }
+}
+
+pub fn run(vm: &mut Vm, c: &JCase) -> String {
+    let (src, floats) = source(c);
+    let bytes: Vec<u8> = c.text.clone().unwrap_or_default().into_bytes();
+    let r = catch_unwind(AssertUnwindSafe(|| {
+        let (fv, _) = vm.vm.run_expr::<Val>("c19json", &src).map_err(|e| e.to_string())?;
+        // the expected type of run_expr cannot mention a hole under an arrow: take the closure as an
+        // opaque value and view it as a function
+        let mut f: OwnedFunction<fn(Vec<f64>, Vec<u8>) -> Val> = Getable::from_value(&vm.vm, fv.get_variant());
+        f.call(floats, bytes).map_err(|e| e.to_string())
+    }));
+    match r {
+        Ok(Ok(v)) => render_result(&v, &canon_value),
+        Ok(Err(e)) => format!("error {} || source: {}", e.replace('\n', " | "), src.replace('\n', " ; ")),
         Err(_) => "panic".into(),
     }
 }
 
-fn to_serde(v: &J) -> serde_json::Value {
+pub fn to_serde(v: &J) -> serde_json::Value {
     match v {
         J::Null => serde_json::Value::Null,
         J::Bool(b) => serde_json::Value::Bool(*b),
         J::Int(i) => serde_json::Value::Number((*i).into()),
+        J::Float(b) => serde_json::Value::Number(serde_json::Number::from_f64(f64::from_bits(*b)).expect("finite")),
         J::Str(s) => serde_json::Value::String(s.clone()),
         J::Arr(xs) => serde_json::Value::Array(xs.iter().map(to_serde).collect()),
         J::Obj(kv) => serde_json::Value::Object(kv.iter().map(|(k, v)| (k.clone(), to_serde(v))).collect()),
     }
 }
-fn from_serde(v: &serde_json::Value) -> J {
+pub fn from_serde(v: &serde_json::Value) -> J {
     match v {
         serde_json::Value::Null => J::Null,
         serde_json::Value::Bool(b) => J::Bool(*b),
-        serde_json::Value::Number(n) => J::Int(n.as_i64().unwrap_or(0)),
+        serde_json::Value::Number(n) => {
+            if let Some(i) = n.as_i64() {
+                J::Int(i)
+            } else if let Some(u) = n.as_u64() {
+                J::Int(u as i64)
+            } else {
+                J::Float(n.as_f64().unwrap().to_bits())
+            }
+        }
         serde_json::Value::String(s) => J::Str(s.clone()),
         serde_json::Value::Array(xs) => J::Arr(xs.iter().map(from_serde).collect()),
         serde_json::Value::Object(m) => {
@@ -280,32 +371,77 @@ fn from_serde(v: &serde_json::Value) -> J {
     }
 }
 
-/// serde_json on its own data model as the cross-check (objects sorted by key).
+/// serde_json on its own data model as the cross-check (objects sorted by key): its text for the
+/// value and its reading of the text (of the given re-spelling for jsontext cases).
 pub fn oracle(c: &JCase) -> String {
-    let sv = to_serde(&c.v);
-    let text = serde_json::to_string(&sv).unwrap();
-    let back: serde_json::Value = serde_json::from_str(&text).unwrap();
-    format!("{} {}", hex(text.as_bytes()), p_j(&from_serde(&back)))
-}
-
-/// The property itself on the implementation's answer: reading back what was written is the identity.
-pub fn property(c: &JCase, impl_line: &str) -> Option<(String, String)> {
-    let p: Vec<&str> = impl_line.split(' ').collect();
-    if p.len() == 2 && !impl_line.starts_with("error") {
-        if p[1] != p_j(&c.v) {
-            return Some((format!("json:round-trip:{}", p_j(&c.v)), format!("de (ser v) = {} for v = {}", p[1], p_j(&c.v))));
-        }
-        None
-    } else {
-        Some((format!("json:round-trip-fails:{}", p_j(&c.v)), format!("ser/de of {} fails: {}", p_j(&c.v), impl_line)))
+    let text = match &c.text {
+        None => serde_json::to_string(&to_serde(&c.v)).unwrap(),
+        Some(t) => t.clone(),
+    };
+    match serde_json::from_str::<serde_json::Value>(&text) {
+        Ok(back) => format!("{} {}", hex(text.as_bytes()), p_j(&from_serde(&back), false)),
+        Err(e) => format!("error {}", e),
     }
 }
 
-const CHARS: &[char] = &['a', 'b', 'k', ' ', '"', '\\', '/', '\n', '\t', '\r', 'é', '€', '😀', '\u{7f}', '\u{2028}', '{', '}', '[', ']', ':', ',', '0'];
+/// Do `want` and `got` differ only in float leaves, each off by at most 8 units in the last place (same sign)?
+pub fn few_ulps_apart(want: &J, got: &J) -> bool {
+    fn go(a: &J, b: &J, n: &mut u32) -> bool {
+        match (a, b) {
+            (J::Float(x), J::Float(y)) => {
+                if x == y {
+                    true
+                } else if (x >> 63) == (y >> 63) && (x.max(y) - x.min(y)) <= 8 {
+                    *n += 1;
+                    true
+                } else {
+                    false
+                }
+            }
+            (J::Arr(x), J::Arr(y)) => x.len() == y.len() && x.iter().zip(y).all(|(p, q)| go(p, q, n)),
+            (J::Obj(x), J::Obj(y)) => x.len() == y.len() && x.iter().zip(y).all(|((k1, p), (k2, q))| k1 == k2 && go(p, q, n)),
+            (a, b) => a == b,
+        }
+    }
+    let mut n = 0;
+    go(want, got, &mut n) && n > 0
+}
+
+/// key of the one class of float inexactness found on the unchanged tree (serde_json is built
+/// without its `float_roundtrip` feature): everything else is keyed by the failing input
+pub const ULP_KEY: &str = "json:float-reads-back-a-few-ulps-off";
+
+/// The property itself on the implementation's answer: reading back what was written (or a
+/// re-spelling of it) is the identity; floats are compared by bit pattern.
+pub fn property(c: &JCase, impl_line: &str) -> Option<(String, String)> {
+    let p: Vec<&str> = impl_line.split(' ').collect();
+    let want = p_j(&c.v, false);
+    let class = |v: &J| -> &'static str {
+        if has_float(v) { "value-with-float" } else { "float-free-value" }
+    };
+    let kind = if c.text.is_some() { "respelled-text" } else { "round-trip" };
+    if p.len() == 2 && !impl_line.starts_with("error") {
+        if p[1] != want {
+            if let Some(got) = (P { s: p[1].as_bytes(), i: 0 }).val() {
+                if few_ulps_apart(&c.v, &got) {
+                    return Some((ULP_KEY.to_string(), format!("{} reads back as {} (a float a few units in the last place off)", want, p[1])));
+                }
+            }
+            return Some((format!("json:{}:{}:{}", kind, class(&c.v), c.line()), format!("reads back as {} instead of {}", p[1], want)));
+        }
+        None
+    } else {
+        Some((format!("json:{}-fails:{}:{}", kind, class(&c.v), c.line()), format!("ser/de of {} fails: {}", want, impl_line)))
+    }
+}
+
+// ---- generators ----
+
+const CHARS: &[char] = &['a', 'b', 'k', ' ', '"', '\\', '/', '\n', '\t', '\r', 'é', '€', '😀', '𝄞', '\u{7f}', '\u{2028}', '\u{ffff}', '{', '}', '[', ']', ':', ',', '0', 'e', '.'];
 // control characters that have no Gluon string escape are passed raw inside the literal
 const CTRL: &[char] = &['\u{1}', '\u{8}', '\u{c}', '\u{1f}'];
 
-fn gen_str(rng: &mut Rng) -> String {
+pub fn gen_str(rng: &mut Rng) -> String {
     let n = match rng.below(4) {
         0 => 0,
         1 => 1,
@@ -314,25 +450,61 @@ fn gen_str(rng: &mut Rng) -> String {
     (0..n).map(|_| if rng.chance(1, 12) { *rng.pick(CTRL) } else { *rng.pick(CHARS) }).collect()
 }
 
-fn gen_j(rng: &mut Rng, depth: u32) -> J {
-    let k = if depth == 0 { rng.below(4) } else { rng.below(7) };
+pub fn gen_int(rng: &mut Rng) -> i64 {
+    match rng.below(7) {
+        0 => 0,
+        1 => *rng.pick(&[i64::MAX, i64::MIN, -1, 1]),
+        2 => rng.range(-9, 9),
+        // integers around and beyond 2^53 (not exactly representable as f64)
+        3 => *rng.pick(&[9007199254740992i64, 9007199254740993, -9007199254740993, 9007199254740991, 1 << 62, (1 << 62) + 1]),
+        _ => rng.range(-100000, 100000),
+    }
+}
+
+/// finite floats of every class named by the property: whole numbers, negative zero, values that
+/// print with an exponent, large / small magnitudes, subnormals, integers beyond 2^53, random bits
+pub fn gen_float(rng: &mut Rng, hist: &mut Hist) -> u64 {
+    let (class, f): (&str, f64) = match rng.below(10) {
+        0 => ("whole-small", rng.range(-20, 20) as f64),
+        1 => ("whole-large", *rng.pick(&[1e15, -1e15, 9007199254740992.0, 9007199254740994.0, 1e16, 1e19, 9.223372036854775807e18, -9.223372036854775808e18, 1.8446744073709552e19, 1e21, 1e22, 123456789012345680000.0])),
+        2 => ("neg-zero", -0.0),
+        3 => ("fraction", *rng.pick(&[0.5, 1.5, -2.25, 0.1, 0.2, 0.3, 1.0 / 3.0, 2.0 / 3.0, 3.14159, 1e-7, 123.456, -0.001])),
+        4 => ("exponent", *rng.pick(&[1e300, -1e300, 1e-300, 1.5e200, 2.5e-200, 1e100, 1e-5, 1e-7, 6.02214076e23, 1.7976931348623157e308])),
+        5 => ("subnormal-tiny", *rng.pick(&[5e-324, 2.2250738585072014e-308, 2.225073858507201e-308, 1e-310, -5e-324])),
+        6 => ("int-valued-mix", (rng.range(-1000000, 1000000) * 1000) as f64),
+        7 => ("near-whole", rng.range(-100, 100) as f64 + *rng.pick(&[0.5, 0.25, 1e-9, -1e-9])),
+        _ => {
+            // random finite bit pattern
+            let mut b = rng.next_u64();
+            while !f64::from_bits(b).is_finite() {
+                b = rng.next_u64();
+            }
+            ("random-bits", f64::from_bits(b))
+        }
+    };
+    hist.add(&format!("json:float:{}", class));
+    f.to_bits()
+}
+
+fn gen_j(rng: &mut Rng, hist: &mut Hist, depth: u32) -> J {
+    let k = if depth == 0 { rng.below(6) } else { rng.below(10) };
     match k {
         0 => J::Null,
         1 => J::Bool(rng.chance(1, 2)),
-        2 => J::Int(match rng.below(5) {
-            0 => 0,
-            1 => *rng.pick(&[i64::MAX, i64::MIN, -1, 1]),
-            2 => rng.range(-9, 9),
-            _ => rng.range(-100000, 100000),
-        }),
+        2 => J::Int(gen_int(rng)),
         3 => J::Str(gen_str(rng)),
-        4 | 5 => J::Arr((0..rng.below(4)).map(|_| gen_j(rng, depth - 1)).collect()),
+        4 | 5 => J::Float(gen_float(rng, hist)),
+        6 | 7 => {
+            // ints and floats side by side
+            let n = rng.below(4);
+            J::Arr((0..n).map(|_| if depth > 1 || rng.chance(1, 2) { gen_j(rng, hist, depth - 1) } else if rng.chance(1, 2) { J::Int(gen_int(rng)) } else { J::Float(gen_float(rng, hist)) }).collect())
+        }
         _ => {
             let mut kv: Vec<(String, J)> = vec![];
             for _ in 0..rng.below(5) {
                 let k = gen_str(rng);
                 if !kv.iter().any(|(k2, _)| *k2 == k) {
-                    kv.push((k, gen_j(rng, depth - 1)));
+                    kv.push((k, gen_j(rng, hist, depth - 1)));
                 }
             }
             kv.sort_by(|a, b| a.0.as_bytes().cmp(b.0.as_bytes()));
@@ -343,12 +515,118 @@ fn gen_j(rng: &mut Rng, depth: u32) -> J {
 
 pub fn gen_case(rng: &mut Rng, hist: &mut Hist) -> JCase {
     let depth = rng.below(4) as u32;
-    let v = gen_j(rng, depth);
+    let v = gen_j(rng, hist, depth);
     hist.add(&format!("json:depth{}", depth));
     hist.add(match &v {
+        J::Float(_) => "json:float",
         J::Null | J::Bool(_) | J::Int(_) | J::Str(_) => "json:scalar",
         J::Arr(_) => "json:array",
         J::Obj(_) => "json:object",
     });
-    JCase { v }
+    JCase { v, text: None }
+}
+
+// ---- re-spelled texts: white space, escapes, exponent spellings ----
+
+fn ws(rng: &mut Rng, out: &mut String) {
+    for _ in 0..rng.below(3) {
+        if rng.chance(1, 2) {
+            out.push(*rng.pick(&[' ', '\t', '\n', '\r']));
+        }
+    }
+}
+
+fn respell_str(rng: &mut Rng, s: &str, out: &mut String) {
+    out.push('"');
+    for c in s.chars() {
+        let esc = rng.below(4);
+        match c {
+            '"' => out.push_str("\\\""),
+            '\\' => out.push_str("\\\\"),
+            '/' if esc == 0 => out.push_str("\\/"),
+            '\n' if esc != 1 => out.push_str("\\n"),
+            '\t' if esc != 1 => out.push_str("\\t"),
+            '\r' if esc != 1 => out.push_str("\\r"),
+            '\u{8}' if esc != 1 => out.push_str("\\b"),
+            '\u{c}' if esc != 1 => out.push_str("\\f"),
+            c if (c as u32) < 0x20 || esc == 1 => {
+                // \uXXXX, astral characters as a surrogate pair; upper or lower case hex
+                let mut buf = [0u16; 2];
+                for u in c.encode_utf16(&mut buf) {
+                    if rng.chance(1, 2) {
+                        out.push_str(&format!("\\u{:04x}", u));
+                    } else {
+                        out.push_str(&format!("\\u{:04X}", u));
+                    }
+                }
+            }
+            c => out.push(c),
+        }
+    }
+    out.push('"');
+}
+
+fn respell(rng: &mut Rng, v: &J, out: &mut String) {
+    match v {
+        J::Null => out.push_str("null"),
+        J::Bool(b) => out.push_str(if *b { "true" } else { "false" }),
+        J::Int(i) => out.push_str(&i.to_string()),
+        J::Float(b) => {
+            let t = float_token(*b);
+            // same number, other spelling: an explicit zero exponent
+            match rng.below(4) {
+                0 if !t.contains('e') => out.push_str(&format!("{}e0", t)),
+                1 if !t.contains('e') => out.push_str(&format!("{}E+0", t)),
+                2 if t.contains('e') => out.push_str(&t.replace('e', "E")),
+                _ => out.push_str(&t),
+            }
+        }
+        J::Str(s) => respell_str(rng, s, out),
+        J::Arr(xs) => {
+            out.push('[');
+            ws(rng, out);
+            for (i, x) in xs.iter().enumerate() {
+                if i > 0 {
+                    out.push(',');
+                    ws(rng, out);
+                }
+                respell(rng, x, out);
+                ws(rng, out);
+            }
+            out.push(']');
+        }
+        J::Obj(kv) => {
+            out.push('{');
+            ws(rng, out);
+            // any member order denotes the same object
+            let mut idx: Vec<usize> = (0..kv.len()).collect();
+            if rng.chance(1, 2) {
+                idx.reverse();
+            }
+            for (n, i) in idx.iter().enumerate() {
+                if n > 0 {
+                    out.push(',');
+                    ws(rng, out);
+                }
+                respell_str(rng, &kv[*i].0, out);
+                ws(rng, out);
+                out.push(':');
+                ws(rng, out);
+                respell(rng, &kv[*i].1, out);
+                ws(rng, out);
+            }
+            out.push('}');
+        }
+    }
+}
+
+pub fn gen_text_case(rng: &mut Rng, hist: &mut Hist) -> JCase {
+    let depth = rng.below(4) as u32;
+    let v = gen_j(rng, hist, depth);
+    let mut t = String::new();
+    ws(rng, &mut t);
+    respell(rng, &v, &mut t);
+    ws(rng, &mut t);
+    hist.add("json:respelled-text");
+    JCase { v, text: Some(t) }
 }
